@@ -160,6 +160,8 @@ def workload(tier, seed):
     for which in [["K", 3, 17, "zero"], ["K", 2, 17, "first"], ["K", 1, 17, "zero"], ["X", 17, 18, 3]] + ([] if tier == "quick" else [["K", 2, 18, "zero"], ["X", 18, 19, 2], ["K", 2, 19, "first"]]):
         yield "wide_parities", {"which": which}
     yield "files", {}
+    for i in range(2 if tier == "quick" else 20):
+        yield "table_classes", {"rseed": seed * 50 + i}
     for i in range(6 if tier == "quick" else 120):
         yield "sessions", {"rseed": seed * 500 + i, "count": 25}
     for i in range(2 if tier == "quick" else 20):
@@ -284,6 +286,58 @@ def case_wide_parities(ctx, which):
             compare(ctx, "randkxor", ["randkxor", str(which[1]), str(which[2]), str(which[3])], 5, cap, 40)
     finally:
         shutil.rmtree(tmp, ignore_errors=True)
+
+
+def case_table_classes(ctx, rseed):
+    """The library route of the statement -- a family built with the OPB formula class against the same family built
+    with the CNF class -- for classes of the user's that keep what they are given in their own tables (add_clause /
+    add_constraint overridden): same variables, same names, same model set."""
+    import cnfgen as g
+    from cnfgen.graphs import Graph, BipartiteGraph
+    from cnfgen.formula.cnf import CNF
+    from ..ducks import table_class, table_opb_class
+    tt.selfcheck()
+    KC, KO = table_class(CNF), table_opb_class()
+    r = ctx.rng("c08table", rseed)
+    n = r.randint(4, 5)
+    G = Graph(n)
+    for _ in range(n + 1):
+        u, v = r.sample(range(1, n + 1), 2)
+        G.add_edge(u, v)
+    B = BipartiteGraph(3, 3)
+    for _ in range(5):
+        B.add_edge(r.randint(1, 3), r.randint(1, 3))
+    s1 = r.randint(0, 10 ** 6)
+    fams = {"php": lambda K: g.PigeonholePrinciple(3, 2, formula_class=K), "tseitin": lambda K: g.TseitinFormula(G, formula_class=K),
+            "randkxor": lambda K: g.RandomKXOR(3, 6, 4, seed=s1, formula_class=K), "randkcnf": lambda K: g.RandomKCNF(3, 6, 5, seed=s1, formula_class=K),
+            "randkxor planted": lambda K: g.RandomKXOR(2, 5, 3, seed=s1, planted_assignments=[[1, -2, 3, -4, 5]], formula_class=K),
+            "subsetcard": lambda K: g.SubsetCardinalityFormula(B, formula_class=K), "gphp": lambda K: g.GraphPigeonholePrinciple(B, formula_class=K),
+            "kcolor": lambda K: g.GraphColoringFormula(G, 3, formula_class=K), "domset": lambda K: g.DominatingSet(G, 2, formula_class=K),
+            "count": lambda K: g.CountingPrinciple(4, 2, formula_class=K), "op": lambda K: g.OrderingPrinciple(3, formula_class=K),
+            "matching": lambda K: g.PerfectMatchingPrinciple(G, formula_class=K), "cliquecoloring": lambda K: g.CliqueColoring(4, 3, 2, formula_class=K),
+            "bphp": lambda K: g.BinaryPigeonholePrinciple(3, 2, formula_class=K), "tiling": lambda K: g.Tiling(G, formula_class=K),
+            "ec": lambda K: g.EvenColoringFormula(Graph.complete_graph(5), formula_class=K), "vdw": lambda K: g.VanDerWaerden(6, 2, 3, formula_class=K),
+            "rphp": lambda K: g.RelativizedPigeonholePrinciple(2, 2, 2, formula_class=K), "parity": lambda K: g.ParityPrinciple(4, formula_class=K)}
+    for name, fn in fams.items():
+        sa, A = ctx.call(fn, KC)
+        sb, Bf = ctx.call(fn, KO)
+        ctx.count("table_class_pairs")
+        label = "%s built into a user's table class" % name
+        if sa == "exc" or sb == "exc":
+            if (sa == "exc") != (sb == "exc"):
+                ctx.violation("%s:table-class:one-class-raises" % name.split()[0], "%s: CNF -> %r, OPB -> %r" % (label, A if sa == "exc" else "formula", Bf if sb == "exc" else "formula"))
+            continue
+        na, nb = A.number_of_variables(), Bf.number_of_variables()
+        if na != nb or list(A.all_variable_labels()) != list(Bf.all_variable_labels()):
+            ctx.violation("%s:table-class:names" % name.split()[0], "%s: %d variables / %d variables, or other names" % (label, na, nb))
+            continue
+        if na <= 20:
+            ma, mb = tt.models_of(A), tt.models_of(Bf)
+            if ma != mb:
+                d = tt.first_difference(na, ma, mb)
+                ctx.violation("%s:table-class:models" % name.split()[0], "%s: %d CNF models vs %d OPB models (%d rows vs %d rows); %r satisfies only the %s"
+                              % (label, tt.count(ma), tt.count(mb), len(A), len(Bf), d["assignment"], "CNF" if d["in_first"] else "OPB"))
+        ctx.judged(("table-class", name, rseed), nontrivial=na > 0, sample={"family": name, "variables": na, "cnf_rows": len(A), "opb_rows": len(Bf)})
 
 
 def case_dimacs_files(ctx, rseed, count):
